@@ -4,7 +4,7 @@ import math
 from ..common import b2f, f2b
 from ..gen import gen_tree, infosets_of
 from ..ops import CaseBuilder
-from ..solvers import level_tree
+from ..solvers import level_tree, blind_guess_tree
 from .. import oracle
 
 SCOPE = {"solve", "named", "info"}
@@ -24,7 +24,10 @@ def generate(rng, tier, n):
     cases = []
     cid = 0
     while len(cases) < n:
-        if rng.random() < 0.3:
+        c0 = rng.random()
+        if c0 < 0.15:
+            t, st = blind_guess_tree(rng)
+        elif c0 < 0.4:
             k = rng.choice([2, 3, 4])
             t, st = level_tree(rng, [2, rng.choice([3 * k - 1, 3 * k + 1, 5]), rng.choice([6, 3 * k + 2])])
         else:
@@ -96,4 +99,18 @@ def classify(cb, impl):
             out.append("stopped_below_threshold")
     except Exception:
         pass
+    return out
+
+
+def escalate(cb, cid0):
+    """the same game and thread count with larger budgets and no threshold: a wrong regret weighting shows as a bound
+    that keeps shrinking while the true regret does not"""
+    out = []
+    for k, T in enumerate([100, 500, 2000]):
+        m = dict(cb.meta, T=T, r=0.0)
+        nb = CaseBuilder(cid0 + k, cb.tree, m)
+        s = nb.solve("full", T, 0.0, m["threads"], "vanilla")
+        nb.named(s)
+        nb.info(s)
+        out.append(nb)
     return out
